@@ -95,12 +95,19 @@ func (h *TwoPartyHandler) canAdvance() bool {
 	return false
 }
 
-func extractRoundMessage(r round.Session, msg *Message) (round.Message, error) {
+func extractRoundMessage(r round.Session, msg *Message) (roundMsg round.Message, err error) {
+	// the decoder (and the custom unmarshalers it calls) may panic on hostile input;
+	// a message that cannot be decoded safely is simply a bad message
+	defer func() {
+		if p := recover(); p != nil {
+			roundMsg, err = round.Message{}, fmt.Errorf("failed to unmarshal message: %v", p)
+		}
+	}()
 	content := r.MessageContent()
 	if err := cbor.Unmarshal(msg.Data, content); err != nil {
 		return round.Message{}, fmt.Errorf("failed to unmarshal message: %w", err)
 	}
-	roundMsg := round.Message{
+	roundMsg = round.Message{
 		From:      msg.From,
 		To:        msg.To,
 		Content:   content,
